@@ -58,8 +58,9 @@ func (h *JsonHandler) WithAttrs(attrs []slog.Attr) Handler {
 
 	h2 := h.clone()
 	for _, a := range attrs {
-		appendJsonAttr(&h2.preformatted, a, h2.addSep, h2.Options.colorful)
-		h2.addSep = true
+		if appendJsonAttr(&h2.preformatted, a, h2.addSep, h2.Options.colorful) {
+			h2.addSep = true
+		}
 	}
 	return h2
 }
@@ -124,8 +125,9 @@ func (h *JsonHandler) Handle(_ context.Context, r slog.Record) error {
 	if r.NumAttrs() > 0 {
 		addSep := h.addSep
 		r.Attrs(func(a slog.Attr) bool {
-			appendJsonAttr(buf, a, addSep, h.Options.colorful)
-			addSep = true
+			if appendJsonAttr(buf, a, addSep, h.Options.colorful) {
+				addSep = true
+			}
 			return true
 		})
 	}
@@ -140,33 +142,44 @@ func (h *JsonHandler) Handle(_ context.Context, r slog.Record) error {
 	return err
 }
 
-func appendJsonAttr(buf *[]byte, a slog.Attr, addSep bool, colorful bool) {
-	if addSep {
-		*buf = append(*buf, ',')
-		addSep = false
-	}
-
+// appendJsonAttr appends the attribute as one member (or, for a group with an empty key, as the members
+// of that group) and reports whether it wrote anything. The separator is written only in front of a member, so an
+// empty inline group leaves the buffer untouched.
+func appendJsonAttr(buf *[]byte, a slog.Attr, addSep bool, colorful bool) (wrote bool) {
 	a.Value = a.Value.Resolve()
 	if a.Value.Kind() == slog.KindGroup {
-		if len(a.Key) > 0 {
-			*buf = append(*buf, '"')
-			appendJsonString(buf, a.Key)
-			*buf = append(*buf, '"', ':', '{')
+		if len(a.Key) == 0 {
+			for _, aa := range a.Value.Group() {
+				if appendJsonAttr(buf, aa, addSep, colorful) {
+					addSep, wrote = true, true
+				}
+			}
+			return wrote
 		}
+		if addSep {
+			*buf = append(*buf, ',')
+		}
+		*buf = append(*buf, '"')
+		appendJsonString(buf, a.Key)
+		*buf = append(*buf, '"', ':', '{')
+		addSep = false
 		for _, aa := range a.Value.Group() {
-			appendJsonAttr(buf, aa, addSep, colorful)
-			addSep = true
+			if appendJsonAttr(buf, aa, addSep, colorful) {
+				addSep = true
+			}
 		}
-		if len(a.Key) > 0 {
-			*buf = append(*buf, '}')
-		}
-		return
+		*buf = append(*buf, '}')
+		return true
 	}
 
+	if addSep {
+		*buf = append(*buf, ',')
+	}
 	*buf = append(*buf, '"')
 	appendJsonString(buf, a.Key)
 	*buf = append(*buf, '"', ':')
 	appendJsonValue(buf, a.Value, colorful)
+	return true
 }
 
 func appendJsonValue(buf *[]byte, v slog.Value, colorful bool) {
